@@ -4,10 +4,10 @@ import NGF.Model.Proto
 /-
 Driver entry for C15. Lines are TAB separated `key=value` fields.
   model line : ns= name= idx= w=<w,..> v=<1|0,..> ups=<u,..>
-  output     : block=<split_clients block, "\n" as "|", "-" if none>\tpp=<proxy_pass argument>\trange=<0|1>
+  output     : block=<split_clients block, "\n" as "|", "-" if none>\tpp=<proxy_pass argument>
+  prefix line: as model line; output: the same for the PRE-FIX float64 algorithm, plus range=<0|1>
   judge line : w= v= ups= block= pp= inv500=
-  output     : `ok strict=<0|1> deficit=<n>` | `fail <clause> <clause> …`
-  repaired line : w=<w,..>    output: cents of the REPAIRED variant `c,c,…`
+  output     : `ok strict=<0|1> deficit=<n> positional=<0|1>` | `fail <clause> <clause> …`
 -/
 namespace NGF.C15Driver
 open NGF.Proto NGF.SplitClients NGF.F64
@@ -38,7 +38,8 @@ def rangeOK (T : Nat) (ws : List Nat) : Bool :=
     let p := fdiv (fmul (ofNat w) 100) (ofNat T)
     inRange p && inRange (fmul p 100) && inRange (((w : Rat) * 100) / (T : Rat))
 
-def modelLine (line : String) : String :=
+/-- `float = false`: the integer algorithm of the current code; `float = true`: the pre-fix float64 algorithm -/
+def modelLine (float : Bool) (line : String) : String :=
   let fs := line.splitOn "\t"
   match tfield fs "ns", tfield fs "name", tfield fs "idx" >>= String.toNat?,
         tfield fs "w" >>= parseNatList, tfield fs "v" >>= parseBools, tfield fs "ups" with
@@ -47,15 +48,17 @@ def modelLine (line : String) : String :=
     if ws.length != vs.length || ws.length != us.length then "bad-op" else
     let bs := mkBackends ws vs us
     let gname := groupName ns name idx
-    let blk := match distributions bs with
+    let blk := match (if float then floatDistributions bs else distributions bs) with
       | none => "-"
       | some ds => (block (safeVar gname) ds).replace "\n" "|"
     -- createProxyPass(backendGroup, nil filter, "http", grpc=false)
     let bname := backendGroupName gname bs
     let pp := if bs.length > 1 then "http://$" ++ safeVar bname ++ "$request_uri"
               else "http://" ++ bname ++ "$request_uri"
-    let rg := if total bs = 0 then true else rangeOK (total bs) ws
-    s!"block={blk}\tpp={pp}\trange={if rg then 1 else 0}"
+    if float then
+      let rg := if total bs = 0 then true else rangeOK (total bs) ws
+      s!"block={blk}\tpp={pp}\trange={if rg then 1 else 0}"
+    else s!"block={blk}\tpp={pp}"
   | _, _, _, _, _, _ => "bad-op"
 
 def judgeLine (line : String) : String :=
@@ -68,27 +71,50 @@ def judgeLine (line : String) : String :=
     match SplitClientsJudge.judge ws vs us blk pp (inv == "1") with
     | [] =>
       let st := SplitClientsJudge.strictWithin ws blk
-      s!"ok strict={if st then 1 else 0} deficit={SplitClientsJudge.floatDeficit ws blk}"
+      let po := SplitClientsJudge.positional ws blk
+      s!"ok strict={if st then 1 else 0} deficit={SplitClientsJudge.floatDeficit ws blk} positional={if po then 1 else 0}"
     | cs => "fail " ++ " ".intercalate cs
   | _, _, _, _, _, _ => "bad-op"
 
-def repairedLine (line : String) : String :=
+/-- weight line: `in=<nil|int>` -> model `out=<int>`; judge on `in= out=`: what reaches the generator is in
+[0, 10^6], an in-range weight is kept, an absent one is 1 -/
+def parseInt? (s : String) : Option Int :=
+  if s.startsWith "-" then (s.drop 1).toString.toNat?.map (fun n => -(n : Int)) else s.toNat?.map (fun n => (n : Int))
+
+def weightModelLine (line : String) : String :=
   let fs := line.splitOn "\t"
-  match tfield fs "w" >>= parseNatList with
-  | some ws => showNatList (repairedCents ws)
+  match tfield fs "in" with
+  | some "nil" => s!"out={effectiveWeight none}"
+  | some x => match parseInt? x with
+    | some w => s!"out={effectiveWeight (some w)}"
+    | none => "bad-op"
   | none => "bad-op"
+
+def weightJudgeLine (line : String) : String :=
+  let fs := line.splitOn "\t"
+  match tfield fs "in", tfield fs "out" >>= parseInt? with
+  | some i, some o =>
+    if o < 0 || o > 1000000 then "fail weight_out_of_range"
+    else if i == "nil" then (if o == 1 then "ok" else "fail default_weight_not_1")
+    else match parseInt? i with
+      | some w => if 0 ≤ w && w ≤ 1000000 && o != w then "fail weight_not_kept"
+                  else if (w < 0 || w > 1000000) && o != 0 then "fail invalid_weight_gets_traffic" else "ok"
+      | none => "bad-op"
+  | _, _ => "bad-op"
 
 def driver (args : List String) : IO UInt32 := do
   let stdin ← IO.getStdin
   let stdout ← IO.getStdout
   match args with
-  | ["model"] => forEachLine stdin fun l => stdout.putStrLn (modelLine l)
+  | ["model"] => forEachLine stdin fun l => stdout.putStrLn (modelLine false l)
+  | ["prefix"] => forEachLine stdin fun l => stdout.putStrLn (modelLine true l)
   | ["judge"] => forEachLine stdin fun l => stdout.putStrLn (judgeLine l)
-  | ["repaired"] => forEachLine stdin fun l => stdout.putStrLn (repairedLine l)
-  | _ => IO.eprintln "usage: C15 model|judge|repaired"; return 2
+  | ["wmodel"] => forEachLine stdin fun l => stdout.putStrLn (weightModelLine l)
+  | ["wjudge"] => forEachLine stdin fun l => stdout.putStrLn (weightJudgeLine l)
+  | _ => IO.eprintln "usage: C15 model|prefix|judge|wmodel|wjudge"; return 2
   return 0
 
 end NGF.C15Driver
 
-/-- executable entry point: `ngfdriver_C15 model|judge|repaired` -/
+/-- executable entry point: `ngfdriver_C15 model|prefix|judge|wmodel|wjudge` -/
 def main (args : List String) : IO UInt32 := NGF.C15Driver.driver args
